@@ -190,14 +190,20 @@ class SpecEval:
             self.err('ordering on sorts %s/%s' % (a.sort, b.sort))
         if op in ('+', '-', '*', '/', '%'):
             if a.sort == 'Int' and b.sort == 'Int':
-                if op == '/':
-                    return V('(go.quo %s %s)' % (a.term, b.term), 'Int', a.ts)
-                if op == '%':
-                    return V('(go.rem %s %s)' % (a.term, b.term), 'Int', a.ts)
+                if op in ('/', '%'):
+                    from .exec import is_lit
+                    if is_lit(b.term):
+                        return V('(%s %s %s)' % ('go.quo' if op == '/' else 'go.rem', a.term, b.term), 'Int', a.ts)
+                    f = self.vc.ufun('ext.go.quo' if op == '/' else 'ext.go.rem', ['Int', 'Int'], 'Int')
+                    return V('(%s %s %s)' % (f, a.term, b.term), 'Int', a.ts)
+                if op == '*':
+                    from .exec import is_lit
+                    if not is_lit(a.term) and not is_lit(b.term):
+                        return V('(%s %s %s)' % (self.vc.ufun('ext.go.mul', ['Int', 'Int'], 'Int'), a.term, b.term), 'Int', a.ts or b.ts)
                 return V('(%s %s %s)' % (op, a.term, b.term), 'Int', a.ts or b.ts)
             if a.sort in ('F64', 'F32') and a.sort == b.sort:
-                f = {'+': 'fp.add RNE', '-': 'fp.sub RNE', '*': 'fp.mul RNE', '/': 'fp.div RNE'}.get(op)
-                if f:
+                if op in ('+', '-', '*', '/'):
+                    f = self.vc.ufun('ext.fp.%s.%s' % ({'+': 'add', '-': 'sub', '*': 'mul', '/': 'div'}[op], a.sort), [a.sort, a.sort], a.sort)
                     return V('(%s %s %s)' % (f, a.term, b.term), a.sort, a.ts)
             if a.sort == 'Str' and b.sort == 'Str' and op == '+':
                 return V('(%s %s %s)' % (self.vc.ufun('gs.concat', ['Str', 'Str'], 'Str'), a.term, b.term), 'Str', 'string')
@@ -495,6 +501,13 @@ class SpecEval:
             self.err('typeid("T") expects a type in quotes')
         return V(str(self.vc.tid(ts)), 'Int', 'int')
 
+    def b_isslice(self, args):
+        x = self.eval(args[0])
+        return V('((_ is a.slice) %s)' % x.term, 'Bool', 'bool')
+
+    def b_zerotime(self, args):
+        return V(self.vc.zero_of_sort('Time'), 'Time', 'time.Time')
+
     def b_isnil(self, args):
         x = self.eval(args[0])
         return V(eq(x.term, self.nil_of(x).term), 'Bool', 'bool')
@@ -511,7 +524,8 @@ class SpecEval:
     def b_f32(self, args):
         x = self.eval(args[0])
         if x.sort == 'Int':
-            return V('((_ to_fp 8 24) RNE (to_real %s))' % x.term, 'F32', 'float32')
+            from .models import i2f_term
+            return V(i2f_term(self.vc, x.term, 'F32'), 'F32', 'float32')
         if x.sort == 'F64':
             return V('((_ to_fp 8 24) RNE %s)' % x.term, 'F32', 'float32')
         if x.sort == 'F32':
@@ -521,7 +535,8 @@ class SpecEval:
     def b_f64(self, args):
         x = self.eval(args[0])
         if x.sort == 'Int':
-            return V('((_ to_fp 11 53) RNE (to_real %s))' % x.term, 'F64', 'float64')
+            from .models import i2f_term
+            return V(i2f_term(self.vc, x.term, 'F64'), 'F64', 'float64')
         if x.sort == 'F32':
             return V('((_ to_fp 11 53) RNE %s)' % x.term, 'F64', 'float64')
         if x.sort == 'F64':
@@ -559,6 +574,24 @@ class SpecEval:
 
     def b_unbox(self, args):
         self.err('use x.(T)')
+
+    def retag(self, args, ts):
+        x = self.eval(args[0])
+        if x.sort != self.vc.sort_of(ts):
+            self.err('cast of sort %s to %s' % (x.sort, ts))
+        return V(x.term, x.sort, ts)
+
+    def b_asint(self, args):
+        return self.retag(args, 'int')
+
+    def b_asint64(self, args):
+        return self.retag(args, 'int64')
+
+    def b_asdur(self, args):
+        return self.retag(args, 'time.Duration')
+
+    def b_asrune(self, args):
+        return self.retag(args, 'int32')
 
     def b_wrap64(self, args):
         x = self.eval(args[0])
